@@ -916,6 +916,57 @@ MULTI += [
     "                    timeout = timeout.saturating_sub(now.elapsed());\n                    if timeout.is_zero() {\n                        return *flushed_slot;\n                    }")]),
  ("B.r11.sum_points_add_assign", ["C13", "C14"], "emitter/otlp/src/data/metrics.rs", [
    ("                NumberDataPointValue::AsDouble(AsDouble(current + value))", "                NumberDataPointValue::AsDouble(AsDouble({\n                    let mut total = current;\n                    total += value;\n                    total\n                }))")]),
+ # ---- round 12 ----
+ ("B.r12.century_selection_flattened", ["C15"], "core/src/timestamp.rs", [
+   ("""                if rem >= 200 {
+                    if rem >= 300 {
+                        centuries = 3;
+                        rem -= 300;
+                    } else {
+                        centuries = 2;
+                        rem -= 200;
+                    }
+                } else if rem >= 100 {""", """                if rem >= 300 {
+                    centuries = 3;
+                    rem -= 300;
+                } else if rem > 199 {
+                    centuries = 2;
+                    rem -= 200;
+                } else if rem >= 100 {""")]),
+ ("B.r12.traces_decline_let_else", ["C13", "C14"], "emitter/otlp/src/data/traces.rs", [
+   ("""        if !emit::kind::is_span_filter().matches(evt) {
+            return None;
+        }
+""", """        let is_span = emit::kind::is_span_filter().matches(evt);
+        if is_span == false {
+            return None;
+        }
+""")]),
+ ("B.r12.span_status_ge_warn", ["C13"], "emitter/otlp/src/data/traces/span.rs", [
+   ("""            let code = match level {
+                emit::Level::Debug | emit::Level::Info => StatusCode::Ok,
+                emit::Level::Warn | emit::Level::Error => StatusCode::Error,
+            };""", """            let code = if level >= emit::Level::Warn {
+                StatusCode::Error
+            } else {
+                StatusCode::Ok
+            };""")]),
+ ("B.r12.tl_enter_id_local", ["C03", "C04"], "src/platform/thread_local_ctxt.rs", [
+   ("""    fn enter(&self, frame: &mut Self::Frame) {
+        swap(self.id, frame);""", """    fn enter(&self, frame: &mut Self::Frame) {
+        let id = self.id;
+        swap(id, frame);""")]),
+ ("B.r12.option_props_if_let", ["C02", "C01"], "core/src/props.rs", [
+   ("""        match self {
+            Some(props) => props.for_each(for_each),
+            None => ControlFlow::Continue(()),
+        }""", """        if let Some(props) = self {
+            return props.for_each(for_each);
+        }
+
+        ControlFlow::Continue(())""")]),
+ ("B.r12.member_count_flipped", ["C11"], "emitter/file/src/lib.rs", [
+   ("    parts.split('.').count() == 3\n", "    let components = parts.split('.').count();\n    3 == components\n")]),
 ]
 
 # Behaviour-preserving edits the checks are KNOWN to alarm on (documented limitation, DESIGN.md section 8.1): the step is moved into a
